@@ -149,6 +149,29 @@ impl TypeName {
     }
 }
 
+#[cfg(redb_verif)]
+impl TypeName {
+    /// Verification hook: a name with an explicit classification byte (1 = Internal,
+    /// 2 = UserDefined, 3 = Internal2, 4 = Internal3) and an optional legacy classification.
+    pub fn verif_new(classification: u8, name: &str, legacy: Option<u8>) -> Self {
+        Self {
+            classification: TypeClassification::from_byte(classification),
+            name: name.to_string(),
+            legacy_classification: legacy.map(TypeClassification::from_byte),
+        }
+    }
+
+    /// Verification hook: the classification byte as serialized.
+    pub fn verif_classification(&self) -> u8 {
+        self.classification.to_byte()
+    }
+
+    /// Verification hook: the in-memory legacy classification, if any.
+    pub fn verif_legacy_classification(&self) -> Option<u8> {
+        self.legacy_classification.as_ref().map(TypeClassification::to_byte)
+    }
+}
+
 /// Types that implement this trait can be used as values in a redb table
 pub trait Value: Debug {
     /// `SelfType<'a>` must be the same type as Self with all lifetimes replaced with 'a
